@@ -45,7 +45,7 @@ def check_C15(run):
     # trees Parse cannot build: every schema document of GenJson that decodes and validates (lists of patterns, literals in odd places ...)
     import checks_json
     d = run.sub("gen_json")
-    out, rc, secs = run.tlc(d, "GenJson", checks_json.GENJSON_CFG % run.tier, workers=1, timeout=1800, seed=run.seed, xss=True)
+    out, rc, secs = run.tlc(d, "GenJson", checks_json.GENJSON_CFG % run.tier, workers=1, timeout=3600, seed=run.seed, xss=True)
     if '"GENERATED' not in out:
         raise Broken("GenJson failed: " + (run.tlc_error(out) or out[-400:]))
     res = os.path.join(run.work, "fold_docs.ndjson")
